@@ -58,7 +58,7 @@ def build(cfg):
         return oqpsk.OQPSKModulator(normalize=n), oqpsk.OQPSKDemodulator(normalize=n)
     if fam == "pi4qpsk":
         g = cfg[1] == "gray"
-        return pi4qpsk.Pi4QPSKModulator(gray_coded=g), pi4qpsk.Pi4QPSKDemodulator()
+        return pi4qpsk.Pi4QPSKModulator(gray_coded=g), pi4qpsk.Pi4QPSKDemodulator(gray_coded=g)
     if fam == "identity":
         from kaira.modulations.identity import IdentityDemodulator, IdentityModulator
 
